@@ -176,6 +176,15 @@ def property_checks(inp):
                    max(_err(mod.ft(c_ * x, d), c_ * mod.ft(x, d)), _err(mod.ift(c_ * x, df), c_ * mod.ift(x, df)),
                        _err(mod.ft2(c_ * m, d), c_ * mod.ft2(m, d)), _err(mod.ift2(c_ * m, df), c_ * mod.ift2(m, df)),
                        _err(mod.ift(mod.ft(c_ * x, d), df), c_ * x), _err(mod.ift2(mod.ft2(c_ * m, d), df), c_ * m)), 1e-9))
+        # spacings held as 0-d or one-element arrays (values read from a header) and re-used for several calls: unchanged afterwards,
+        # and the second round trip is as exact as the first
+        if tag == "module":
+            for mk_ in (lambda v_: numpy.array(v_), lambda v_: numpy.array([v_])):
+                dd_, dff_ = mk_(d), mk_(df)
+                e1 = max(_err(mod.ift(mod.ft(x, dd_), dff_), x), _err(mod.ift2(mod.ft2(m, dd_), dff_), m))
+                e2 = max(_err(mod.ift(mod.ft(x, dd_), dff_), x), _err(mod.ift2(mod.ft2(m, dd_), dff_), m))
+                keep_ = float(numpy.ravel(dd_)[0]) == d and float(numpy.ravel(dff_)[0]) == df
+                A(("spacings given as %s arrays are left untouched and a second round trip is exact" % ("0-d" if dd_.ndim == 0 else "one-element"), max(e1, e2) if keep_ else float("inf"), 1e-9))
         # the same sample values stored in a narrow dtype (camera frames: uint8 / int16 / uint16, float32) with a Python-int
         # or float spacing are the same samples: the transform must be that of the float64 copy, nothing may wrap around
         if tag == "module":
